@@ -4,7 +4,7 @@ From Coq Require Import Ascii String List Bool ZArith NArith.
 From PTBase Require Import Exn PyStr PyNum PyVal.
 From PTModel Require Import Fortran FortranNF FortranRender.
 From Gen Require Import GenFortran.
-From P Require Import Spec Main.
+From P Require Import Spec Blanks IntRender Styles Main.
 Import ListNotations.
 Open Scope char_scope.
 
@@ -75,3 +75,70 @@ Theorem fortran_float_renderings : forall s bv sg ip fp x, wf_mant ip fp -> wf_e
   norm (strip s) = canon sg ip fp x -> gen_fortran_float (VStr s) bv = Ok (VFloat (canon_value sg ip fp x)).
 Proof. exact ff_renderings. Qed.
 Print Assumptions fortran_float_renderings.
+
+(** overflow asterisks (what Fortran prints when the value does not fit the field): corollaries
+    of the bad-character theorems, [*] being no numeric character *)
+Theorem overflow_asterisks_give_nan : forall s bv, In "*" s -> gen_fortran_float (VStr s) bv = Ok (VFloat NaN).
+Proof. exact ff_stars. Qed.
+Print Assumptions overflow_asterisks_give_nan.
+Theorem overflow_asterisks_give_none : forall s bv, In "*" s -> gen_fortran_int (VStr s) bv = Ok VNone.
+Proof. exact fi_stars. Qed.
+Print Assumptions overflow_asterisks_give_none.
+
+(** ** the integer reader *)
+(** whatever int() accepts, it accepts stripped and with all blanks removed, with the same value *)
+Theorem int_accepts_normalised : forall s v, py_int_opt s = Some v -> py_int_opt (inorm s) = Some v.
+Proof. exact int_accepts_norm. Qed.
+Print Assumptions int_accepts_normalised.
+(** INTEGER NORMAL FORM: for every non-blank text the result is int() of the stripped text with
+    all blanks removed ([inorm s = unblank (strip s)]), None when int() rejects that *)
+Theorem fortran_int_normal_form : forall s bv, strip s <> [] -> gen_fortran_int (VStr s) bv = Ok (int_of (inorm s)).
+Proof. exact fi_nf. Qed.
+Print Assumptions fortran_int_normal_form.
+Theorem fortran_int_ignores_blanks : forall s s' bv, strip s <> [] -> strip s' <> [] -> inorm s = inorm s' ->
+  gen_fortran_int (VStr s) bv = gen_fortran_int (VStr s') bv.
+Proof. exact fi_norm_only. Qed.
+Print Assumptions fortran_int_ignores_blanks.
+(** INTEGER RENDERINGS, general form: every text that is, blanks removed, an optional sign and
+    one or more digits (any number of digits; blanks in front, behind, after the sign, between
+    digits) is read as exactly that integer *)
+Theorem fortran_int_reads_sign_digits_blanks : forall s bv sg ds, ds <> [] -> all_digits ds = true ->
+  unblank s = (sgstr sg ++ ds)%list -> gen_fortran_int (VStr s) bv = Ok (VInt (signed (isneg sg) (dvalue 0 ds))).
+Proof. exact fi_digits. Qed.
+Print Assumptions fortran_int_reads_sign_digits_blanks.
+(** ... as a rendering function of the integer: Fortran Iw / Iw.m output of z (optional plus
+    sign, at least m digits, zero filled) with [gaps] blanks before each character and at the
+    end is read back as z -- no side condition *)
+Theorem fortran_int_rendering : forall z plus m gaps bv, gen_fortran_int (VStr (render_int z plus m gaps)) bv = Ok (VInt z).
+Proof. exact fi_render. Qed.
+Print Assumptions fortran_int_rendering.
+(** [with_blanks] reaches every placement of blanks: any text is its blank-free form with blanks put in *)
+Theorem blank_placements_complete : forall s, exists gaps, s = with_blanks gaps (unblank s).
+Proof. exact with_blanks_complete. Qed.
+Print Assumptions blank_placements_complete.
+(** the digit strings used by the renderings are decimal notation of the number *)
+Theorem decimal_digit_strings : forall n, all_digits (n_to_str n) = true /\ n_to_str n <> [] /\ dvalue 0 (n_to_str n) = n.
+Proof. exact decimal_digits. Qed.
+Print Assumptions decimal_digit_strings.
+Theorem digit_strings_positional : forall ds c, dvalue 0 (ds ++ [c])%list = (dvalue 0 ds * 10 + ndval c)%N.
+Proof. exact dvalue_snoc. Qed.
+Print Assumptions digit_strings_positional.
+
+(** ** EVERY OUTPUT STYLE of a real (Styles.v): x = (sign, digits d1..dn, exponent e) denotes
+    (-1)^sign * 0.d1..dn * 10^e = [real_value x]; [render st x] prints it with the choices [st]:
+    explicit plus, 0.ddd / .ddd, k digits before the point (kP, ES), exponent letter E e D d with
+    the sign of a non-negative exponent as + / blank / nothing and at least w exponent digits,
+    letter dropped (sign kept), no exponent (F formats), blanks before every character and at the
+    end.  Whatever the style, any number of digits, any exponent: read back as exactly x. *)
+Theorem fortran_float_every_style : forall st x bv, wf_real x -> style_ok st x ->
+  gen_fortran_float (VStr (render st x)) bv = Ok (VFloat (real_value x)).
+Proof. exact ff_style. Qed.
+Print Assumptions fortran_float_every_style.
+(** the styles the property text names, one by one *)
+Theorem fortran_float_style_catalogue : forall bv x g, wf_real x ->
+  gen_reads_back bv (st_E g) x /\ gen_reads_back bv (st_D g) x /\ gen_reads_back bv (st_lower_e g) x /\
+  gen_reads_back bv (st_lower_d g) x /\ gen_reads_back bv (st_point g) x /\ gen_reads_back bv (st_explicit_plus g) x /\
+  gen_reads_back bv (st_dropped g) x /\ gen_reads_back bv (st_blank_plus g) x /\ gen_reads_back bv (st_ES g) x /\
+  (forall k, style_ok (st_F k g) x -> gen_reads_back bv (st_F k g) x).
+Proof. exact ff_catalogue. Qed.
+Print Assumptions fortran_float_style_catalogue.
